@@ -18,6 +18,7 @@ ItemAt(g) ==
   ELSE IF g <= O6 THEN LayoutAt(g - O5)
   ELSE IF g <= O7 THEN OneHotAt(g - O6)
   ELSE SweepAt(g - O7)
+Histories == IF "VERIF_TIER" \in DOMAIN IOEnv /\ IOEnv.VERIF_TIER = "thorough" THEN 300 ELSE 40
 VARIABLE n
 INSTANCE GenBase
 =============================================================================
